@@ -348,7 +348,9 @@ class FullRunner(Runner):
         elif k == 'var':
             self.set_var(int(toks[1]), int(toks[2]))
         elif k == 'wire':
-            self.devs[int(toks[1])].set_upstream([self.devs[int(u)] for u in plist(toks[2])])
+            ul = [self.devs[int(u)] for u in plist(toks[2])]
+            self.devs[int(toks[1])].set_upstream(ul)
+            ul.clear()           # the list belongs to the caller: the device must have kept its own copy
         else:
             super().handle_ext(toks)
 
@@ -431,8 +433,12 @@ class FullRunner(Runner):
             for c in range(int(kv.get('cbs', '0'))):
                 def on_sense(sensor, time, data, c=c, i=i):
                     ok = sensor is runner.sensors[i]
+                    # what an observer sees DURING the callback: all stored series equally long and within capacity
+                    lens = {len(v) for v in sensor.data.values()}
+                    cap = getattr(sensor, '_data_capacity', None)
+                    aligned = len(lens) <= 1 and (cap is None or all(x <= cap for x in lens))
                     runner.results.append(f'sense {i} {c} {ticks(time)} {jn(";", (runner.sval(x) for x in data))}'
-                                          + ('' if ok else ' badargs'))
+                                          + ('' if ok else ' badargs') + ('' if aligned else ' misaligned-series'))
                 s.add_on_sense_callback(on_sense)
             self.sensors.append(s)
         elif t == 'cms':
@@ -523,6 +529,7 @@ class FullRunner(Runner):
         if kind in ('handler', 'processor', 'sink', 'buffer', 'batcher'):
             for spec in plist(kv.get('recvcb', '-')):
                 d.add_receive_part_callback(self.make_part_cb(spec))
+        ups.clear()              # the upstream list belongs to the caller: the device keeps its own copy
         self.add_dev(d)
 
     # ---- scripted operations ----------------------------------------------------------------
@@ -599,7 +606,9 @@ class FullRunner(Runner):
             self.devs[int(toks[1])].offset_next_cycle_time(int(toks[2]) / self.tick)
             return 'ok'
         if op == 'rewire':
-            self.devs[int(toks[1])].set_upstream([self.devs[int(u)] for u in plist(toks[2])])
+            ul = [self.devs[int(u)] for u in plist(toks[2])]
+            self.devs[int(toks[1])].set_upstream(ul)
+            ul.clear()           # as above
             return 'ok'
         if op == 'wo':
             m = self.maints[int(toks[1])]
@@ -1042,6 +1051,7 @@ class SysRunner(FullRunner):
                     kw['subtype'] = self.CLS[toks[6]]
                 found = sysm.find_assets(**kw)
                 self.out.append('sres found ' + jn(';', (str(self.sassets.index(x)) for x in found)))
+                found.clear()          # the returned list belongs to the caller
             elif op == 'counts':
                 self.out.append('scount ' + jn(';', (str(self.init_counts.get(id(a), 0)) for a in self.sassets)))
         except Exception as e:
